@@ -47,7 +47,7 @@ pub fn with_operands<F: FnOnce() -> crate::engine::Check>(mode: Operands, f: F) 
     let r = f();
     MODE.with(|m| m.set(old));
     r.map_err(|mut v| {
-        if mode != Operands::Interned {
+        if mode != Operands::Interned && !v.message.starts_with("SKIP:") {
             v.case["operands"] = serde_json::json!(mode.name());
             v.message = format!("(operands: {}) {}", mode.name(), v.message);
         }
